@@ -36,8 +36,11 @@ type RoundObs struct {
 	Log      []string // hook log entries of this round
 }
 
-// ErrCallback is the error the consumer callback returns in "until-err".
+// ErrCallback is the error the consumer callback returns in "until-err";
+// ErrCallbackEOF (behaviour "until-errw") is a callback failure that wraps
+// io.EOF - it is not the bare io.EOF that asks for the next result set.
 var ErrCallback = errors.New("consumer callback failed")
+var ErrCallbackEOF = fmt.Errorf("consumer callback failed while scanning: %w", io.EOF)
 
 // HookCfg says how many hooks of each kind are registered before round 0 and
 // before round 1.
@@ -231,14 +234,16 @@ func RunRoundsCuts(cfg vrt.Config, corpus map[string]Response, rounds []Round, h
 						return true, nil
 					case "until-eof":
 						return false, io.EOF
+					case "until-errw":
+						return false, ErrCallbackEOF
 					}
 					return false, ErrCallback
 				})
 				ro.Ret = retClass(p, err, &ro)
-				if rd.Beh == "until-err" && err != nil && !strings.HasPrefix(ro.Ret, "ctx") {
+				if (rd.Beh == "until-err" || rd.Beh == "until-errw") && err != nil && !strings.HasPrefix(ro.Ret, "ctx") {
 					finished = true // the library has consumed the rest
 				}
-				if err != nil && rd.Beh != "until-err" && err != io.EOF {
+				if err != nil && rd.Beh != "until-err" && rd.Beh != "until-errw" && err != io.EOF {
 					finished = true
 				}
 				drainNext()
@@ -274,7 +279,7 @@ func retClass(p tds.Package, err error, ro *RoundObs) string {
 			ro.EEDInErr = append(ro.EEDInErr, fmt.Sprintf("nr=%d", e.MsgNumber))
 		}
 	}
-	ro.ErrIs = err != nil && errors.Is(err, ErrCallback)
+	ro.ErrIs = err != nil && (errors.Is(err, ErrCallback) || errors.Is(err, ErrCallbackEOF))
 	switch {
 	case err == nil && p != nil:
 		return "returned package"
@@ -284,7 +289,7 @@ func retClass(p tds.Package, err error, ro *RoundObs) string {
 		return "io.EOF"
 	case errors.Is(err, context.DeadlineExceeded):
 		return "ctx deadline exceeded: " + err.Error()
-	case errors.Is(err, ErrCallback):
+	case errors.Is(err, ErrCallback), errors.Is(err, ErrCallbackEOF):
 		return "callback error"
 	case errors.Is(err, io.EOF):
 		return "wrapped io.EOF"
